@@ -3,8 +3,11 @@
 // (k = 24*year + index) - the proof holds for any term table.
 //   nine:   the 81 days from each winter-solstice day, nine days each, and no other day
 //   pentad: three per term: days 0-4, 5-9, 10+ of the term, with the day index inside the pentad
-// (get_dog_day / get_plum_rain_day go through `LoopTyme: From<HeavenStem>` conversions of name-table objects and
-//  get_hide_heaven_stem_day through str slicing: exhaustive execution only, see evidence.)
+//   dog:    from the third Geng day on or after the summer-solstice day: 10 days, then 10 or 20 according to whether the fifth
+//           Geng day precedes the start-of-autumn day, then 10 days, and no other day
+//   plum:   from the first Bing day on or after Grain-in-Ear to the first Wei day on or after Slight Heat (that day: leaving)
+// (get_hide_heaven_stem_day goes through str slicing: exhaustive execution only, see evidence.)
+// The stem / branch of a day come from its pillar (day number + 49) mod 60 (C07 contract).
 // Callee contracts (external_body): term day (L-TD), SolarDay::is_before / next / subtract (K, C01),
 // SolarDay::get_term (V, C06), Nine::from_index / Phenology::from_index (K, C11 generated cycle harnesses).
 use vstd::prelude::*;
@@ -16,6 +19,24 @@ pub uninterp spec fn TD(k: int) -> int;
 pub open spec fn nine_spec(n: int, w1: int, w0: int) -> Option<(int, int)> {
     let ws = if w1 <= n { w1 } else { w0 };
     if ws <= n && n - ws < 81 { Some(((n - ws) / 9, (n - ws) % 9)) } else { None }
+}
+pub open spec fn emod(a: int, b: int) -> int { a % b }
+/// first day on or after `from` whose stem (resp. branch) is `target`
+pub open spec fn first_stem_day(from: int, target: int) -> int { from + emod(target - (from + 49) % 60 % 10, 10) }
+pub open spec fn first_branch_day(from: int, target: int) -> int { from + emod(target - (from + 49) % 60 % 12, 12) }
+pub open spec fn dog_spec(n: int, sol: int, lq: int) -> Option<(int, int)> {
+    let first = first_stem_day(sol, 6) + 20;            // third Geng day
+    let last = if lq > first + 20 { first + 30 } else { first + 20 };  // fifth Geng day precedes start of autumn: 20 middle days
+    if n < first { None }
+    else if n < first + 10 { Some((0int, n - first)) }
+    else if n < last { Some((1int, n - first - 10)) }
+    else if n < last + 10 { Some((2int, n - last)) }
+    else { None }
+}
+pub open spec fn plum_spec(n: int, ge: int, sh: int) -> Option<(int, int)> {
+    let start = first_stem_day(ge, 2);                  // first Bing day on or after Grain-in-Ear
+    let end = first_branch_day(sh, 7);                  // first Wei day on or after Slight Heat
+    if n < start || n > end { None } else if n == end { Some((1int, 0int)) } else { Some((0int, n - start)) }
 }
 pub open spec fn pentad_spec(n: int, k: int) -> (int, int) {
     let di = n - TD(k);
@@ -31,6 +52,24 @@ impl Copy for SolarDay {}
 pub struct SolarTerm { _p: u8 }
 #[verifier::external_body]
 pub struct JulianDay { _p: u8 }
+#[verifier::external_body]
+pub struct LunarDay { _p: u8 }
+#[verifier::external_body]
+pub struct SixtyCycle { _p: u8 }
+#[verifier::external_body]
+pub struct HeavenStem { _p: u8 }
+#[verifier::external_body]
+pub struct EarthBranch { _p: u8 }
+#[verifier::external_body]
+pub struct LoopTyme { _p: u8 }
+#[verifier::external_body]
+pub struct Dog { _p: u8 }
+#[verifier::external_body]
+pub struct DogDay { _p: u8 }
+#[verifier::external_body]
+pub struct PlumRain { _p: u8 }
+#[verifier::external_body]
+pub struct PlumRainDay { _p: u8 }
 #[verifier::external_body]
 pub struct Nine { _p: u8 }
 #[verifier::external_body]
@@ -56,6 +95,65 @@ impl SolarTerm {
     fn get_julian_day(&self) -> (r: JulianDay) ensures r.src_k() == self.k() { unimplemented!() }
     #[verifier::external_body]
     fn get_index(&self) -> (r: usize) requires self.k() >= 0, ensures r == self.k() % 24 { unimplemented!() }
+    // K (C06 c06_k_next): stepping moves the term number by exactly n
+    #[verifier::external_body]
+    fn next(&self, n: isize) -> (r: SolarTerm) ensures r.k() == self.k() + n { unimplemented!() }
+}
+impl LunarDay {
+    pub uninterp spec fn jdn(&self) -> int;
+    // C07 contract (c07_k_lunar_day_pillar_args + pillar_name table fact): pillar == (day number + 49) mod 60
+    #[verifier::external_body]
+    fn get_sixty_cycle(&self) -> (r: SixtyCycle) ensures r.idx() == (self.jdn() + 49) % 60 { unimplemented!() }
+}
+impl SixtyCycle {
+    pub uninterp spec fn idx(&self) -> int;
+    #[verifier::external_body]
+    fn get_heaven_stem(&self) -> (r: HeavenStem) ensures r.idx() == self.idx() % 10 { unimplemented!() }
+    #[verifier::external_body]
+    fn get_earth_branch(&self) -> (r: EarthBranch) ensures r.idx() == self.idx() % 12 { unimplemented!() }
+}
+impl HeavenStem {
+    pub uninterp spec fn idx(&self) -> int;
+    // E9: `x.into()` with target LoopTyme is written `x.verif_into()`; the impl is `fn into(self) -> LoopTyme { self.parent }`
+    #[verifier::external_body]
+    fn verif_into(self) -> (r: LoopTyme) ensures r.idx() == self.idx(), r.size() == 10 { unimplemented!() }
+}
+impl EarthBranch {
+    pub uninterp spec fn idx(&self) -> int;
+    #[verifier::external_body]
+    fn verif_into(self) -> (r: LoopTyme) ensures r.idx() == self.idx(), r.size() == 12 { unimplemented!() }
+}
+impl LoopTyme {
+    pub uninterp spec fn idx(&self) -> int;
+    pub uninterp spec fn size(&self) -> int;
+    // K (c15_k_steps_to, real body): steps from this index forward to the target index
+    #[verifier::external_body]
+    fn steps_to(&self, target_index: isize) -> (r: usize)
+        requires self.size() > 0,
+        ensures r == emod(target_index - self.idx(), self.size()),
+    { unimplemented!() }
+}
+impl Dog {
+    pub uninterp spec fn idx(&self) -> int;
+    #[verifier::external_body]
+    fn from_index(index: isize) -> (r: Self) ensures r.idx() == index % 3 { unimplemented!() }
+}
+impl DogDay {
+    pub uninterp spec fn dog_idx(&self) -> int;
+    pub uninterp spec fn day_idx(&self) -> int;
+    #[verifier::external_body]
+    fn new(dog: Dog, day_index: usize) -> (r: Self) ensures r.dog_idx() == dog.idx(), r.day_idx() == day_index { unimplemented!() }
+}
+impl PlumRain {
+    pub uninterp spec fn idx(&self) -> int;
+    #[verifier::external_body]
+    fn from_index(index: isize) -> (r: Self) ensures r.idx() == index % 2 { unimplemented!() }
+}
+impl PlumRainDay {
+    pub uninterp spec fn pr_idx(&self) -> int;
+    pub uninterp spec fn day_idx(&self) -> int;
+    #[verifier::external_body]
+    fn new(plum_rain: PlumRain, day_index: usize) -> (r: Self) ensures r.pr_idx() == plum_rain.idx(), r.day_idx() == day_index { unimplemented!() }
 }
 impl Nine {
     pub uninterp spec fn idx(&self) -> int;
@@ -90,6 +188,13 @@ impl SolarDay {
     #[verifier::external_body]
     fn is_before(&self, target: SolarDay) -> (r: bool) ensures r == (self.jdn() < target.jdn()) { unimplemented!() }
     #[verifier::external_body]
+    fn is_after(&self, target: SolarDay) -> (r: bool) ensures r == (self.jdn() > target.jdn()) { unimplemented!() }
+    #[verifier::external_body]
+    fn eq(&self, other: &SolarDay) -> (r: bool) ensures r == (self.jdn() == other.jdn()) { unimplemented!() }
+    // C02 contract: the lunar day of a civil day is the same day
+    #[verifier::external_body]
+    fn get_lunar_day(&self) -> (r: LunarDay) ensures r.jdn() == self.jdn() { unimplemented!() }
+    #[verifier::external_body]
     fn next(&self, n: isize) -> (r: SolarDay) ensures r.jdn() == self.jdn() + n { unimplemented!() }
     #[verifier::external_body]
     fn subtract(&self, target: SolarDay) -> (r: isize) ensures r == self.jdn() - target.jdn(), -4000000 <= r <= 4000000 { unimplemented!() }
@@ -104,6 +209,22 @@ impl SolarDay {
         ensures
             (match r { Some(x) => Some((x.nine_idx(), x.day_idx())), None => None }) ==
             nine_spec(self.jdn(), TD(24 * self.y() + 24), TD(24 * self.y())),
+    //@END
+
+    //@EXTRACT file=src/tyme/solar.rs impl="impl SolarDay" fn=get_dog_day
+    //@sig
+        requires -3000000 <= TD(24 * self.y() + 12) <= 6000000, -3000000 <= TD(24 * self.y() + 15) <= 6000000,
+        ensures
+            (match r { Some(x) => Some((x.dog_idx(), x.day_idx())), None => None }) ==
+            dog_spec(self.jdn(), TD(24 * self.y() + 12), TD(24 * self.y() + 15)),
+    //@END
+
+    //@EXTRACT file=src/tyme/solar.rs impl="impl SolarDay" fn=get_plum_rain_day
+    //@sig
+        requires -3000000 <= TD(24 * self.y() + 11) <= 6000000, -3000000 <= TD(24 * self.y() + 13) <= 6000000,
+        ensures
+            (match r { Some(x) => Some((x.pr_idx(), x.day_idx())), None => None }) ==
+            plum_spec(self.jdn(), TD(24 * self.y() + 11), TD(24 * self.y() + 13)),
     //@END
 
     //@EXTRACT file=src/tyme/solar.rs impl="impl SolarDay" fn=get_phenology_day
